@@ -330,7 +330,8 @@ impl Family for A2 {
         if chunking.len() > 64 {
             chunking = full_chunking(plain.len, cs);
         }
-        let enumerate = rng.chance(2, 3) && plain.len <= 5000;
+        // every execution in password mode costs two scrypt evaluations: no neighbourhood enumeration there
+        let enumerate = rng.chance(2, 3) && plain.len <= 5000 && !matches!(mode, Mode::Pass { .. });
         if !enumerate {
             // seeded multi-fault sequence, including interruption storms
             let nf = rng.range(1, 3);
